@@ -324,6 +324,19 @@ func (h *harness) runState(sf *StateFile, b budget, seed int64) {
 				} else if p, ok := sf.S.Perm[e.C.Q]; ok {
 					tp = p + "/" + sf.S.Req[e.C.Q]
 				}
+				// ... x the target's pending request and membership status (an account that asked to leave keeps its
+				// permissions: "member" and "active" are different classes) x self/other; for a target in such a
+				// transitional state also x the permission argument. The vector is at least as fine as the violation
+				// key (kind, author role, target role, target request).
+				if _, ok := sf.S.Perm[e.C.T]; ok {
+					tp += "/" + sf.S.Req[e.C.T] + "/" + sf.S.Status[e.C.T]
+					if e.C.T == e.A {
+						tp += "/self"
+					}
+					if sf.S.Req[e.C.T] != "none" {
+						tp += "/" + e.C.P
+					}
+				}
 				vec := sf.Whys[k] + "|" + sf.S.Perm[e.A] + "|" + tp
 				if !seen[vec] {
 					seen[vec] = true
